@@ -20,7 +20,7 @@ from ..report import Ctx
 from ..selftest import Mutant
 
 PROP = "C18"
-TECHNIQUE = "static analysis: condition-directed reachability of eager calls under lazy=True + CFG typestate rules of _LazyFunction.evaluate (guard, flag, result) + container-recursion coverage + task-graph edge direction and who-writes rules + container-rebuild rule + every-reaching-definition rule for the resolved arguments + identity-preserving (unshared) cache option derived from `lazy` for every cache class"
+TECHNIQUE = "static analysis: condition-directed reachability of eager calls under lazy=True + CFG typestate rules of _LazyFunction.evaluate (guard, flag, result) + container-recursion coverage + task-graph edge direction and who-writes rules + container-rebuild rule + every-reaching-definition rule for the resolved arguments + identity-preserving (unshared) cache option derived from `lazy` for every cache class + container-kind coverage of task-graph edges"
 EXPLANATION = (
     "Static analysis of pipefunc/lazy.py and of the lazy arms in _pipeline/_base.py and _pipefunc.py: CFG dominance and "
     "must-pass-through queries for the memoisation typestate of _LazyFunction.evaluate, def-use of the call arguments, "
